@@ -44,7 +44,18 @@ def pref_vectors(rng, m):
     z = [Fr(rng.randint(1, 9), 4) for _ in range(m)]
     z[rng.randrange(m)] = Fr(0)
     out.append(z)
+    out.append([Fr(rng.randint(0, 5)) for _ in range(m)])       # integers: may be handed over as an integer tensor
     return out
+
+
+def pref_tensor(rng, u, dtype):
+    """the preference vector as the user may hand it over: in the matrix's dtype, or in another one (integer tensor,
+    half / single / double precision) — all values used here are exactly representable in each"""
+    kinds = [dtype, dtype, torch.float16, torch.float32, torch.float64]
+    if all(v.denominator == 1 for v in u):
+        kinds += [torch.int64, torch.int64]
+    pd = rng.choice(kinds)
+    return torch.tensor([float(x) for x in u], dtype=torch.float64).to(pd)
 
 
 def exact_G(J, s2, norm_eps, reg_eps, below):
@@ -77,9 +88,16 @@ def one_case(ctx: Ctx, J, s, s2, dtype, exact_model: bool):
     ratio = float(s2) / float(ne * ne) if ne != 0 else 1e9
     G = exact_G(J, s2, ne, re_, below)
     for name, cls in (("upgrad", UPGrad), ("dualproj", DualProj)):
-        A = cls(pref_vector=None if u_list is None else torch.tensor([float(x) for x in u], dtype=dtype),
-                norm_eps=norm_eps, reg_eps=reg_eps)
+        pt = None if u_list is None else pref_tensor(rng, u, dtype)
+        pt0 = None if pt is None else pt.clone()
+        A = cls(pref_vector=pt, norm_eps=norm_eps, reg_eps=reg_eps)
         st, x = run_agg(A, Jt)
+        ctx.count("pref_dtype", "none" if pt is None else str(pt.dtype))
+        if pt is not None and not torch.equal(pt, pt0):
+            ctx.violation(f"{name} modified the preference vector it was given: {pt0.tolist()} became {pt.tolist()}",
+                          {"aggregator": name, "J": [[str(v) for v in r] for r in J], "pref_vector": [str(v) for v in u],
+                           "pref_dtype": str(pt.dtype), "dtype": str(dtype)})
+            continue
         ctx.case((name, sx(J), str(u_list), norm_eps, reg_eps, str(dtype)), nontrivial=True,
                  sample={"aggregator": name, "J": [[str(v) for v in r] for r in J], "pref": str(u_list),
                          "norm_eps": norm_eps, "reg_eps": reg_eps, "dtype": str(dtype)})
@@ -87,6 +105,7 @@ def one_case(ctx: Ctx, J, s, s2, dtype, exact_model: bool):
         ctx.count("branch", "below_norm_eps" if below else "normalised")
         ctx.count("pref", "default" if u_list is None else "given")
         rp = {"aggregator": name, "J": [[str(v) for v in r] for r in J], "pref_vector": None if u_list is None else [str(v) for v in u],
+              "pref_dtype": None if pt is None else str(pt.dtype),
               "norm_eps": norm_eps, "reg_eps": reg_eps, "dtype": str(dtype), "s2": str(s2)}
         if st != "ok":
             ctx.violation(f"{name} raised {x} on a finite matrix", rp)
@@ -173,7 +192,10 @@ def main(ctx: Ctx):
             s2 = top_singular_sq(J)
             one_case(ctx, J, None, s2, dtype, exact_model=False)
         else:
-            scale = rng.choice([Fr(1), Fr(1), Fr(1, 1000), Fr(1000), Fr(1, 10 ** 7)])
+            # s far above / below norm_eps as well: the definition is scale-free above the threshold (2^±70 is within the
+            # range of both dtypes; the squared singular values are not, in single precision)
+            scale = rng.choice([Fr(1), Fr(1), Fr(1, 1000), Fr(1000), Fr(1, 10 ** 7), Fr(2) ** 70, Fr(2) ** 45, Fr(1, 2 ** 70)])
+            ctx.count("scale", str(float(scale)))
             J, V, sig, W = m_svd(rng, m, n, scale=scale)
             one_case(ctx, J, sig[0], sig[0] * sig[0], dtype, exact_model=True)
     return ctx.finish(
